@@ -10,6 +10,7 @@ import (
 	erpc "github.com/henrylee2cn/erpc/v6"
 
 	"verif/shim/vsched"
+	"verif/shim/vsync"
 	"verif/world"
 )
 
@@ -274,6 +275,13 @@ func c10Route(p Params) func() {
 			erpc.SetServiceMethodMapper(erpc.RPCServiceMethodMapper)
 		}
 		unknown := vsched.Choose(2, "unknown") == 1
+		// the process may run with logging switched off: a conflicting registration must still not go through
+		// (the framework ends the process; the instrumented build turns os.Exit into a panic of the caller)
+		logOff := vsched.Choose(2, "logging_off") == 1
+		if logOff {
+			erpc.SetLoggerLevel2(erpc.OFF)
+			defer erpc.SetLoggerLevel2(erpc.CRITICAL)
+		}
 		i1 := vsched.Choose(len(items), "item1")
 		i2 := vsched.Choose(len(items)+1, "item2") // last = none
 		g1 := vsched.Choose(3, "group1")
@@ -282,7 +290,7 @@ func c10Route(p Params) func() {
 		groups := []*erpc.SubRouter{srv.SubRoute(""), srv.SubRoute("g"), srv.SubRoute("g").SubRoute("Hh_Ii")}
 		owner := map[string]string{} // call name -> handler id
 		pownr := map[string]string{} // push name -> handler id
-		ctxt := fmt.Sprintf("mapper=%d unknown=%v reg=[%s@%d", mapperIdx, unknown, items[i1].id, g1)
+		ctxt := fmt.Sprintf("mapper=%d unknown=%v logging_off=%v reg=[%s@%d", mapperIdx, unknown, logOff, items[i1].id, g1)
 		mapper := erpc.HTTPServiceMethodMapper
 		if mapperIdx == 1 {
 			mapper = erpc.RPCServiceMethodMapper
@@ -315,6 +323,10 @@ func c10Route(p Params) func() {
 				defer func() {
 					if r := recover(); r != nil {
 						if _, ok := r.(world.FatalError); ok {
+							conflict = true
+							return
+						}
+						if _, ok := r.(vsync.ExitError); ok {
 							conflict = true
 							return
 						}
@@ -364,6 +376,10 @@ func c10Route(p Params) func() {
 			}
 		}
 		ctxt += "]"
+		if logOff {
+			vsched.Logf("logging off %s", ctxt)
+			return // dispatch does not depend on the logger; it is enumerated with logging on
+		}
 		unknownRan, unknownPushRan := 0, 0
 		if unknown {
 			srv.SetUnknownCall(func(ctx erpc.UnknownCallCtx) (interface{}, *erpc.Status) {
